@@ -1,9 +1,11 @@
 import SpecterModel.C01.Drv
+import SpecterModel.C09.Drv
 import SpecterModel.C11.Drv
 import SpecterModel.C12.Drv
 import SpecterModel.C13.Drv
 import SpecterModel.C15.Drv
 import SpecterModel.C16.Drv
+import SpecterModel.C17.Drv
 import SpecterModel.C21.Drv
 import SpecterModel.C24.Drv
 import SpecterModel.C25.Drv
@@ -13,6 +15,7 @@ import SpecterModel.C29.Drv
 import SpecterModel.C31.Drv
 import SpecterModel.C34.Drv
 import SpecterModel.C35.Drv
+import SpecterModel.C36.Drv
 import SpecterModel.C39.Drv
 import SpecterModel.C43.Drv
 import SpecterModel.C45.Drv
@@ -22,11 +25,13 @@ import SpecterModel.C51.Drv
 def main (args : List String) : IO UInt32 := do
   match args with
   | ["C01"] => do Specter.C01.main; return 0
+  | ["C09"] => do Specter.C09.main; return 0
   | ["C11"] => do Specter.C11.main; return 0
   | ["C12"] => do Specter.C12.main; return 0
   | ["C13"] => do Specter.C13.main; return 0
   | ["C15"] => do Specter.C15.main; return 0
   | ["C16"] => do Specter.C16.main; return 0
+  | ["C17"] => do Specter.C17.main; return 0
   | ["C21"] => do Specter.C21.main; return 0
   | ["C24"] => do Specter.C24.main; return 0
   | ["C25"] => do Specter.C25.main; return 0
@@ -36,6 +41,7 @@ def main (args : List String) : IO UInt32 := do
   | ["C31"] => do Specter.C31.main; return 0
   | ["C34"] => do Specter.C34.main; return 0
   | ["C35"] => do Specter.C35.main; return 0
+  | ["C36"] => do Specter.C36.main; return 0
   | ["C39"] => do Specter.C39.main; return 0
   | ["C43"] => do Specter.C43.main; return 0
   | ["C45"] => do Specter.C45.main; return 0
